@@ -24,7 +24,14 @@ def _in(run,x,lo,hi):
     return run.branch_bool(Bool(z3.And(z3.UGE(x,lo),z3.ULE(x,hi))),'json.in')
 
 class P:
-    def __init__(self,run,b,mode='rfc8259'): self.run=run; self.b=b; self.i=0; self.mode=mode
+    def __init__(self,run,b,mode='rfc8259'): self.run=run; self.b=b; self.i=0; self.mode=mode; self.escapes=False; self.depth=0
+    def ws(self):
+        # insignificant whitespace (only the text-parser model 'serde' accepts it; the canonical-form oracle is strict)
+        if self.mode!='serde': return
+        while self.i<len(self.b):
+            x=self.b[self.i]
+            if not (_is(self.run,x,0x20) or _is(self.run,x,0x0a) or _is(self.run,x,0x0d) or _is(self.run,x,0x09)): return
+            self.i+=1
     def peek(self):
         if self.i>=len(self.b): raise Fail('eof')
         return self.b[self.i]
@@ -33,6 +40,14 @@ class P:
             if not _is(self.run,self.peek(),c): raise Fail('literal')
             self.i+=1
     def value(self):
+        self.ws()
+        try:
+            self.depth+=1
+            if self.depth>128: raise Fail('recursion limit exceeded')
+            return self.value1()
+        finally:
+            self.depth-=1; self.ws()
+    def value1(self):
         x=self.peek(); run=self.run
         if _is(run,x,0x22): return ('str',self.string())
         if _is(run,x,0x7b): return self.obj()
@@ -77,6 +92,7 @@ class P:
                 else: raise Fail('escape not allowed in OLPC canonical JSON')
                 continue
             if _is(run,x,0x5c):
+                self.escapes=True
                 self.i+=1; e=self.peek(); self.i+=1
                 simple={0x22:0x22,0x5c:0x5c,0x2f:0x2f,0x62:8,0x66:12,0x6e:10,0x72:13,0x74:9}
                 for k,v in simple.items():
@@ -102,6 +118,7 @@ class P:
             out.append(x); self.i+=1
     def arr(self):
         run=self.run; self.i+=1; items=[]
+        self.ws()
         if _is(run,self.peek(),0x5d): self.i+=1; return ('arr',items)
         while True:
             items.append(self.value())
@@ -110,10 +127,13 @@ class P:
             if not _is(run,x,0x2c): raise Fail('array separator')
     def obj(self):
         run=self.run; self.i+=1; items=[]
+        self.ws()
         if _is(run,self.peek(),0x7d): self.i+=1; return ('obj',items)
         while True:
+            self.ws()
             if not _is(run,self.peek(),0x22): raise Fail('object key')
             k=self.string()
+            self.ws()
             if not _is(run,self.peek(),0x3a): raise Fail('colon')
             self.i+=1
             items.append((k,self.value()))
@@ -121,11 +141,12 @@ class P:
             if _is(run,x,0x7d): return ('obj',items)
             if not _is(run,x,0x2c): raise Fail('object separator')
 
-def parse(run,b,mode='rfc8259'):
+def parse(run,b,mode='rfc8259',info=None):
     p=P(run,list(b),mode)
     try:
         v=p.value()
         if p.i!=len(p.b): return ('fail','trailing bytes')
+        if info is not None: info['escapes']=p.escapes
         return ('ok',v)
     except Fail as e: return ('fail',str(e))
     except IndexError: return ('fail','eof')
